@@ -13,7 +13,7 @@ ASSUMPTIONS = [
     "canonical root: checked as history independence (both insertion orders, insert+delete returns to the earlier root, delete-all gives the blank hash, an earlier root still reads its contents); the kv/branch/leaf canonical-shape argument itself is not re-derived by the solver",
 ]
 BOUNDS = {
-    "quick": "histories of 2 operations (set then set/delete/delete_subtrie) over key lengths {1,2}x{1,2} with a free symbolic lookup key of length 1 and 2; two 3-operation histories (set,set,delete_subtrie / set,set,delete) with the lookup key tied to an operation key and one key byte fixed; order independence for two 1-byte keys",
+    "quick": "histories of 2 operations (set then set/delete/delete_subtrie) over key lengths {1,2}x{1,2} with a free symbolic lookup key of length 1 and 2; three 3-operation histories (set,set,delete_subtrie(prefix) / set,set,delete / set,set,delete(absent prefix)) with the lookup key tied to an operation key and one key byte fixed; order independence for two 1-byte keys",
     "thorough": "all 2-operation histories with a free lookup key; all 3-operation histories over key lengths {1,2}^3 with the lookup key tied to the first or second operation key, and over 1-byte keys with a free lookup key; order independence for key lengths (1,1), (1,2), (2,2)",
 }
 OUTSIDE = "keys longer than 2 bytes, histories longer than 3, 32-byte values that equal a node hash"
@@ -32,6 +32,7 @@ def obligations(tier):
                     add(name, "h_bin_hist", "b_bin_hist", klens=list(klens), kinds=[0, k2], vlen=3, qlen=qlen)
         add(name, "h_bin_hist", "b_bin_hist", klens=[2, 2, 1], kinds=[0, 0, 2], vlen=3, qlen=2, qfrom=1, kfix=[[1], [2], None])
         add(name, "h_bin_hist", "b_bin_hist", klens=[2, 2, 2], kinds=[0, 0, 1], vlen=3, qlen=2, qfrom=0, kfix=[[1], [1], [1]])
+        add(name, "h_bin_hist", "b_bin_hist", klens=[2, 2, 1], kinds=[0, 0, 1], vlen=3, qlen=2, qfrom=1, kfix=[[0], [128], None])
         add("root independent of insertion order; delete restores the earlier root; old root readable", "h_bin_order", "b_bin_order", l1=1, l2=1)
     else:
         for k2 in (0, 1, 2):
